@@ -267,7 +267,7 @@ Proof.
   assert (Hcl : Inv (set_closed s)) by (apply (inv_transfer s); auto).
   destruct x as [st ex common|p sg h now| |ua|t|t].
   - (* EKexInit *)
-    destruct (kex s); [exact Hcl|].
+    destruct (kex s || next_recv_enc s); [exact Hcl|].
     match goal with |- context [if ?b then set_closed s else _] => destruct b end; [exact Hcl|].
     match goal with
     | |- context [if kexinit_sent s then ?a else send_kexinit ?a] =>
